@@ -147,28 +147,49 @@ Definition rtu_process (cfg : fcfg) (st : rstate) : rstate * list delivered * fe
       end
   end.
 
-(* processIncomingPacket(data, callback, unit, single=…) *)
-Definition rtu_recv (cfg : fcfg) (st : rstate) (chunk : bytes) : rstate * list delivered * fexit :=
-  let st0 := {| r_buf := r_buf st ++ chunk; r_hdr := r_hdr st |} in
-  match rtu_ready cfg st0 with
-  | (st1, Raise e) => (st1, [], FExn e)
-  | (st1, Ok false) => (st1, [], FOk)
-  | (st1, Ok true) =>
-      match rtu_check cfg st1 with
-      | (st2, Raise e) => (st2, [], FExn e)
-      | (st2, Ok true) =>
-          match validate_unit cfg (h_uid (r_hdr st2)) with
-          | Raise e => (st2, [], FExn e)
-          | Ok true => rtu_process cfg st2
-          | Ok false => (rtu_reset st2, [], FOk)
-          end
-      | (st2, Ok false) =>
-          match r_buf st2 with
-          | _ :: _ => ({| r_buf := r_buf st2; r_hdr := hdr_empty |}, [], FOk)
-          | [] => (rtu_reset st2, [], FOk)
+(* the while loop of processIncomingPacket:
+     while self.isFrameReady():
+         if self.checkFrame():
+             if self._validate_unit_id(unit, single): self._process(callback)
+             else: self.advanceFrame()
+         elif self._buffer: self._header = {}; break
+         else: self.resetFrame()
+   Recursion on fuel; [FOutOfFuel] is proved unreachable for the regenerated decoder tables
+   (every iteration that continues consumes at least 4 bytes or empties the buffer). *)
+Fixpoint rtu_loop (fuel : nat) (cfg : fcfg) (st : rstate) (acc : list delivered)
+  : rstate * list delivered * fexit :=
+  match fuel with
+  | O => (st, acc, FOutOfFuel)
+  | S k =>
+      match rtu_ready cfg st with
+      | (st1, Raise e) => (st1, acc, FExn e)
+      | (st1, Ok false) => (st1, acc, FOk)
+      | (st1, Ok true) =>
+          match rtu_check cfg st1 with
+          | (st2, Raise e) => (st2, acc, FExn e)
+          | (st2, Ok true) =>
+              match validate_unit cfg (h_uid (r_hdr st2)) with
+              | Raise e => (st2, acc, FExn e)
+              | Ok true =>
+                  match rtu_process cfg st2 with
+                  | (st3, ds, FOk) => rtu_loop k cfg st3 (acc ++ ds)
+                  | (st3, ds, x) => (st3, acc ++ ds, x)
+                  end
+              | Ok false => rtu_loop k cfg (rtu_advance st2) acc
+              end
+          | (st2, Ok false) =>
+              match r_buf st2 with
+              | _ :: _ => ({| r_buf := r_buf st2; r_hdr := hdr_empty |}, acc, FOk)
+              | [] => rtu_loop k cfg (rtu_reset st2) acc
+              end
           end
       end
   end.
+
+(* processIncomingPacket(data, callback, unit, single=…) *)
+Definition rtu_recv (cfg : fcfg) (st : rstate) (chunk : bytes) : rstate * list delivered * fexit :=
+  let st0 := {| r_buf := r_buf st ++ chunk; r_hdr := r_hdr st |} in
+  rtu_loop (S (S (length (r_buf st0)))) cfg st0 [].
 
 (* buildPacket: message = (unit_id, function_code, message.encode()) *)
 Definition rtu_build (uid fc : Z) (data : bytes) : res bytes :=
